@@ -719,6 +719,8 @@ def oracle_strobj(impl_lines):
                         p0 = int(t[3]); st[k] = st[k][:p0] + elems(t, 4, 1) + st[k][p0:]
                     elif op == "insertrange":
                         p0 = int(t[3]); st[k] = st[k][:p0] + st[t[4]] + st[k][p0:]
+                    elif op == "insertstream":
+                        p0 = int(t[3]); st[k] = st[k][:p0] + ofb(t[4]) + st[k][p0:]
                     elif op == "erase":
                         st[k] = []
                     elif op == "erasefrom":
